@@ -162,7 +162,7 @@ static void continuous_families(unsigned long long& unit)
 		continuous("Chi_Square", mc::dec(dof), g, [=](double x) { return PDF_Chi_Square(x, dof); }, [=](double x) { return CDF_Chi_Square(x, dof); }, 2e-12);
 	}
 	// chi-bar-square mixtures
-	for(auto w : std::vector<std::vector<double>>{{1}, {0.5, 0.5}, {0.25, 0.5, 0.25}, {0.1, 0.2, 0.3, 0.4}})
+	for(auto w : std::vector<std::vector<double>>{{1}, {0.5, 0.5}, {0.25, 0.5, 0.25}, {0.1, 0.2, 0.3, 0.4}, {0.25, 0, 0.5, 0.25}, {0, 0, 1}, {0.5, 0, 0, 0.5}, {0, 1}, {0, 0.3, 0, 0.7, 0}})
 	{
 		if(!mc::mine(unit++)) continue;
 		std::vector<double> g{-1.0};
@@ -316,6 +316,27 @@ static void likelihoods(unsigned long long& unit)
 			for(double b : back) if(b != 0) zero = false;
 			if(zero && !mc::same_bits(Likelihood_Poisson_Binned(pred, ob), L)) fail("likelihood", key, "default_background_differs", "empty background list differs from zeros");
 		} while(P.next());
+	}
+	// many bins: the logarithm is the sum over bins at any number of bins (a log of the product underflows below exp(-745))
+	for(int bins : {30, 200, 500, 2000})
+	{
+		std::vector<double> pred, back;
+		std::vector<unsigned long> ob;
+		ld lsum = 0;
+		for(int i = 0; i < bins; i++)
+		{
+			double s = 2.0 + 3.0 * ((i * 7) % 11) / 11.0, b = (i % 3) * 0.4;
+			unsigned long n = (unsigned long)((i * 5) % 9);
+			pred.push_back(s); back.push_back(b); ob.push_back(n);
+			lsum += logl((ld)PMF_Poisson(s + b, n));
+		}
+		double lL = Log_Likelihood_Poisson_Binned(pred, ob, back), L = Likelihood_Poisson_Binned(pred, ob, back);
+		g_cases++;
+		std::string key = "bins=" + std::to_string(bins) + ",pattern";
+		if(!(fabsl(lL - lsum) <= 1e-11L * (fabsl(lsum) + 1))) fail("likelihood", key, "binned_log_likelihood_not_sum", "binned log = " + mc::dec(lL) + " sum of logs = " + mc::dec((double)lsum));
+		ld want = expl(lsum);
+		if(want > 1e-300L && !(fabsl(L - want) <= 1e-10L * want)) fail("likelihood", key, "binned_likelihood_not_product", "binned = " + mc::dec(L) + " exp(sum of logs) = " + mc::dec((double)want));
+		if(!(L >= 0 && L <= 1)) fail("likelihood", key, "binned_likelihood_not_product", "binned = " + mc::dec(L));
 	}
 }
 
